@@ -5,14 +5,14 @@ pub fn parse_ansi() -> std::io::Result<()> {
     use crate::ansi;
 
     let mut stdout = io::stdout().lock();
-    for line in io::stdin().lock().lines() {
+    for line in io::stdin().lock().split(b'\n') {
+        // (Input that is not valid UTF-8 is shown with replacement characters.)
+        let line = line?;
+        let line = String::from_utf8_lossy(&line);
         writeln!(
             stdout,
             "{}",
-            ansi::explain_ansi(
-                &line.unwrap_or_else(|line| panic!("Invalid utf-8: {:?}", line)),
-                true
-            )
+            ansi::explain_ansi(line.trim_end_matches('\r'), true)
         )?;
     }
     Ok(())
